@@ -484,7 +484,15 @@ func ResolveExternalLocation(
 		// Check for redirect loops
 		_, hasLocation := metaGet(recMeta, MetaLocation)
 		if hasLocation && rec.NumRows() == 0 {
+			if resolvedBatch != nil {
+				resolvedBatch.Release()
+			}
 			return batch, meta, fmt.Errorf("external location redirect loop detected")
+		}
+		// The last data batch wins; an earlier one retained above is
+		// dropped here, not leaked.
+		if resolvedBatch != nil {
+			resolvedBatch.Release()
 		}
 		rec.Retain()
 		resolvedBatch = rec
